@@ -517,7 +517,9 @@ func AlgProve(facts []*Term, goal *Term) (bool, string) {
 			q.reduceMod(gm)
 		}
 		rhs := pc.toTerm(q)
-		cur = substitute(cur, map[int]*Term{best: rhs}, map[int]*Term{})
+		// substitution only in polynomial positions: opaque atoms (quotients, uninterpreted
+		// applications) keep their arguments, so that they stay syntactically equal to the facts' atoms
+		cur = substRestricted(cur, map[int]*Term{}, map[int]*Term{best: rhs}, true, map[int]*Term{}, map[int]*Term{})
 		used++
 		nd, err2 := pc.Of(cur, map[int]*Poly{})
 		if err2 == nil {
@@ -1066,11 +1068,7 @@ func algNormalSpan(flat []*Term, gx *Term, gm *big.Int) (bool, string) {
 			q.reduceMod(gm)
 		}
 		rhs := pc.toTerm(q)
-		if m == nil {
-			exact[best] = rhs
-		} else {
-			congr[best] = rhs
-		}
+		congr[best] = rhs
 	}
 	normalise := func(t *Term) *Term {
 		t = stripMod(t, gm, map[int]*Term{})
